@@ -163,6 +163,10 @@ func (t *tctx) expr(e ast.Expr) string {
 			return "(Go.hasPrefix " + strings.Join(args(), " ") + ")"
 		case "strings.Contains":
 			return "(Go.contains " + strings.Join(args(), " ") + ")"
+		case "strings.Split":
+			return "(Go.split " + strings.Join(args(), " ") + ")"
+		case "strings.TrimSpace":
+			return "(Go.trimSpace " + args()[0] + ")"
 		case "strings.CutPrefix":
 			return "(Go.cutPrefix2 " + strings.Join(args(), " ") + ")"
 		case "http.CanonicalHeaderKey":
@@ -203,8 +207,20 @@ func (t *tctx) cond(s *ast.IfStmt) (pre []string, c string) {
 			if ix, ok := as.Rhs[0].(*ast.IndexExpr); ok {
 				if tbl, ok := t.tables[src(ix.X)]; ok {
 					okName := src(as.Lhs[1])
-					if src(as.Lhs[0]) == "_" && src(s.Cond) == okName {
-						return nil, "(" + tbl + ".contains " + t.expr(ix.Index) + ")"
+					if src(as.Lhs[0]) == "_" {
+						// the condition may combine `ok` with other tests
+						if t.subst == nil {
+							t.subst = map[string]string{}
+						}
+						old, had := t.subst[okName]
+						t.subst[okName] = "(" + tbl + ".contains " + t.expr(ix.Index) + ")"
+						c := t.expr(s.Cond)
+						if had {
+							t.subst[okName] = old
+						} else {
+							delete(t.subst, okName)
+						}
+						return nil, c
 					}
 				}
 			}
@@ -944,8 +960,20 @@ func genFuncs() string {
 				loops = append(loops, r)
 			}
 		}
+		var keep []*ast.RangeStmt
+		for _, l := range loops {
+			if src(l.X) == "w.trailer" {
+				// `for k := range w.trailer { respTrailer[k] = nil }`: the response's own trailer map starts with the declared keys
+				if strings.TrimSpace(src(l.Body)) != "{\n\trespTrailer[k] = nil\n}" {
+					fail("%s: unexpected loop over w.trailer in WriteHeader: %s", rel, src(l.Body))
+				}
+				continue
+			}
+			keep = append(keep, l)
+		}
+		loops = keep
 		if len(loops) != 2 {
-			fail("%s: WriteHeader no longer has exactly two range loops (%d)", rel, len(loops))
+			fail("%s: WriteHeader no longer has exactly two header loops (%d)", rel, len(loops))
 		}
 		body := append([]string{"  let mut trailer : Hdr := []"}, t.stmt(loops[0], "  ")...)
 		body = append(body, "  return trailer")
@@ -953,6 +981,47 @@ func genFuncs() string {
 		body = append([]string{"  let mut header : Hdr := []"}, t.stmt(loops[1], "  ")...)
 		body = append(body, "  return header")
 		emitDef(&sb, "utils_srwFilterHeader (wHeader : Hdr) : Hdr", body, rel+" streamingResponseWriter.WriteHeader: hop-by-hop filter")
+
+		// which status codes WriteHeader ignores (interim responses), and whether the response
+		// handed to the serialising goroutine shares maps with the handler
+		ign := "false"
+		for _, st := range wh.Body.List {
+			is, ok := st.(*ast.IfStmt)
+			if !ok || is.Init != nil || len(is.Body.List) != 1 {
+				continue
+			}
+			if _, ok := is.Body.List[0].(*ast.ReturnStmt); ok && strings.Contains(src(is.Cond), "status") {
+				ti := &tctx{pkg: "utils", env: collectConsts(f), where: rel + ":WriteHeader status test"}
+				knownInts["http.StatusSwitchingProtocols"] = 101
+				ign = ti.expr(is.Cond)
+			}
+		}
+		fmt.Fprintf(&sb, "/-- %s streamingResponseWriter.WriteHeader: status codes that are ignored (not taken as the response status) -/\ndef utils_srwIgnoresStatus (status : Int) : Bool := %s\n\n", rel, ign)
+		aliased, shared := false, false
+		ast.Inspect(wh, func(n ast.Node) bool {
+			switch x := n.(type) {
+			case *ast.AssignStmt:
+				if len(x.Lhs) == 1 && src(x.Lhs[0]) == "w.header" {
+					aliased = true
+				}
+			case *ast.CompositeLit:
+				if src(x.Type) == "http.Response" {
+					for _, el := range x.Elts {
+						kv := el.(*ast.KeyValueExpr)
+						v := src(kv.Value)
+						if src(kv.Key) == "Header" && (v == "w.header" || v == "w.Header()") {
+							aliased = true
+						}
+						if src(kv.Key) == "Trailer" && v == "w.trailer" {
+							shared = true
+						}
+					}
+				}
+			}
+			return true
+		})
+		fmt.Fprintf(&sb, "/-- %s: is the header map of the streamed response the map that Header() keeps returning to the handler? -/\ndef utils_srwHeaderAliased : Bool := %v\n", rel, aliased)
+		fmt.Fprintf(&sb, "/-- %s: is the trailer map of the streamed response the map that Close mutates? -/\ndef utils_srwTrailerShared : Bool := %v\n\n", rel, shared)
 
 		cl := mustFunc(f, rel, "streamingResponseWriter", "Close")
 		loops = nil
